@@ -314,3 +314,7 @@ def _(A, R):
 
 
 UNITS = UNITS + ["codebasin.file_source:fortran_file_source@loop0"]
+# "includes in Fortran files select lines exactly as they do in C files": an included file is scanned in the language
+# insert_file records for its includer, so that record is part of what this property depends on
+import contracts.C15 as _C15      # noqa: E402,F401
+UNITS = UNITS + ["codebasin.finder:ParserState.insert_file"]
